@@ -85,6 +85,9 @@ def build(variant='asan', hooks=True, quiet=False):
     flags = list(VARIANTS[variant])
     if hooks:
         flags.append('-D' + GUARD)
+    if os.environ.get('VERIF_COVERAGE') == '1' and variant in ('asan', 'plain'):
+        variant = 'cov'        # audit mode (tools/coverage_audit.py): same workloads on a --coverage build; plays no part in verdicts
+        flags = VARIANTS['cov'] + ['-D' + GUARD]
     th = tree_hash(r)
     vname = variant + ('' if hooks else '-nohooks')
     out = os.path.join(CACHE, th, vname)
@@ -94,6 +97,10 @@ def build(variant='asan', hooks=True, quiet=False):
     fcntl.flock(lockf, fcntl.LOCK_EX)
     try:
         if os.path.exists(stamp):
+            try:
+                os.utime(os.path.join(CACHE, th))      # least-recently-USED pruning: a tree in use is never the oldest
+            except OSError:
+                pass
             return out
         t0 = time.time()
         if not quiet:
